@@ -221,6 +221,7 @@ type State struct {
 	ClockN   int
 	Crashed  bool
 	NoReplay bool // path depends on environment content that native replay cannot reproduce
+	Variant  string // distinguishes counterexamples of the same site found through a representative input (kept as separate violations)
 	FSOps    int
 	CrashAt  int // -1: no crash planned
 	// facts known true (syntactic) for cheap branch decisions
